@@ -10,6 +10,7 @@ import (
 	"context"
 	"expvar"
 	"fmt"
+	"net"
 	"os"
 	"path/filepath"
 	"regexp"
@@ -30,7 +31,7 @@ import (
 const watchdog = 60 * time.Second
 
 type step struct {
-	Op   string `json:"op"` // create delete rename mkdir rmdir
+	Op   string `json:"op"` // create delete rename mkdir rmdir mksock rmsock dir-to-file file-to-dir
 	Path string `json:"path"`
 	To   string `json:"to,omitempty"`
 }
@@ -59,6 +60,7 @@ type world struct {
 	root  string
 	files map[string]bool // relative path -> regular file
 	dirs  map[string]bool // relative path -> directory (besides d0,d1)
+	socks map[string]bool // relative path -> unix socket file (matches patterns, can never be tailed as a log file)
 }
 
 // expected computes the set of relative paths that must be tailed.
@@ -88,7 +90,7 @@ func (w *world) expected(c config) []string {
 
 func runHistory(base string, idx int, c config, hist []step) (what string, inconclusive bool, probes int) {
 	root := filepath.Join(base, fmt.Sprintf("t%d", idx))
-	w := &world{root: root, files: map[string]bool{}, dirs: map[string]bool{}}
+	w := &world{root: root, files: map[string]bool{}, dirs: map[string]bool{}, socks: map[string]bool{}}
 	for _, d := range dirs {
 		_ = os.MkdirAll(filepath.Join(root, d), 0o755)
 	}
@@ -228,6 +230,25 @@ func runHistory(base string, idx int, c config, hist []step) (what string, incon
 			}
 			_ = os.Remove(p)
 			delete(w.dirs, st.Path)
+		case "mksock":
+			// a node the patterns match but that is no log file: it must be
+			// passed over, whatever else the patterns match
+			if w.socks[st.Path] {
+				continue
+			}
+			l, err := net.Listen("unix", p)
+			if err != nil {
+				return fail("mksock: "+err.Error(), true)
+			}
+			l.(*net.UnixListener).SetUnlinkOnClose(false)
+			l.Close()
+			w.socks[st.Path] = true
+		case "rmsock":
+			if !w.socks[st.Path] {
+				continue
+			}
+			_ = os.Remove(p)
+			delete(w.socks, st.Path)
 		case "dir-to-file":
 			// the name never disappears between two polls: a directory one
 			// poll, a regular file the next
@@ -282,7 +303,7 @@ func runHistory(base string, idx int, c config, hist []step) (what string, incon
 func TestC18(t *testing.T) {
 	r := ev.Start(t, "C18", "exploration")
 	defer r.Finish()
-	r.Rule("tree of 2 directories x 4 names (+ directories with matching names); 1-3 overlapping patterns from {d0/*.log, d0/a*, */x.log, d1/a.log, */*.log, d?/b.log, and literal patterns spelled non-canonically (d1/./a.log, d0/../d1/a.log, d0//x.log) or with glob quoting (d0/b\\.log)}, absolute or relative (the process chdirs into the tree), optional ignore regex from {^b, \\.txt$, log}; histories over {create, delete, rename to a matching / non-matching name, mkdir with a matching name, rmdir, directory replaced by a file of the same name and back within one step}: every history of length <=2 (quick) / <=3 (thorough) over a reduced step set for three fixed configurations, plus random length-10/15 histories with random configurations. After each step + pattern poll + stream barrier a unique probe line is appended to every file; at the end every probe of a file in the model's expected set must have been delivered exactly once, every other probe never; log_count must equal the expected set's size after every step. Non-trivial: history in which the expected set changed at least twice; distinct by (config, history).")
+	r.Rule("tree of 2 directories x 4 names (+ directories with matching names); 1-3 overlapping patterns from {d0/*.log, d0/a*, */x.log, d1/a.log, */*.log, d?/b.log, and literal patterns spelled non-canonically (d1/./a.log, d0/../d1/a.log, d0//x.log) or with glob quoting (d0/b\\.log)}, absolute or relative (the process chdirs into the tree), optional ignore regex from {^b, \\.txt$, log}; histories over {create, delete, rename to a matching / non-matching name, mkdir with a matching name, rmdir, a unix socket file with a matching name that sorts first (never tailable, must be passed over), directory replaced by a file of the same name and back within one step}: every history of length <=2 (quick) / <=3 (thorough) over a reduced step set for three fixed configurations, plus random length-10/15 histories with random configurations. After each step + pattern poll + stream barrier a unique probe line is appended to every file; at the end every probe of a file in the model's expected set must have been delivered exactly once, every other probe never; log_count must equal the expected set's size after every step. Non-trivial: history in which the expected set changed at least twice; distinct by (config, history).")
 	r.Assume("reference matcher = path/filepath.Match applied to model paths (independent of Glob's filesystem walk)", "a step is followed by a stream wake so that streams on vanished paths end before the next pattern poll")
 	base, _ := os.MkdirTemp(ev.Scratch(), "c18")
 	defer os.RemoveAll(base)
@@ -304,6 +325,7 @@ func TestC18(t *testing.T) {
 		{Op: "rename", Path: "d0/a.log", To: "d0/b.log"}, {Op: "rename", Path: "d0/a.log", To: "d0/a.txt"}, {Op: "rename", Path: "d1/a.txt", To: "d1/a.log"}, {Op: "rename", Path: "d0/b.log", To: "d0/a.log"},
 		{Op: "mkdir", Path: "d0/c.log"}, {Op: "rmdir", Path: "d0/c.log"}, {Op: "create", Path: "d0/a.log"},
 		{Op: "dir-to-file", Path: "d0/c.log"}, {Op: "file-to-dir", Path: "d0/b.log"}, {Op: "dir-to-file", Path: "d0/b.log"},
+		{Op: "mksock", Path: "d0/0.log"},
 		{Op: "create", Path: "d0/a#1.log"}, {Op: "create", Path: "d0/a%41.log"}, {Op: "create", Path: "d0/aA.log"},
 	}
 	maxLen := ev.Pick(2, 3)
@@ -337,7 +359,9 @@ func TestC18(t *testing.T) {
 		for k := 0; k < ev.Pick(10, 15); k++ {
 			d := ev.PickOne(g, dirs)
 			n := ev.PickOne(g, names)
-			switch g.Intn(9) {
+			switch g.Intn(10) {
+			case 9:
+				h = append(h, step{Op: ev.PickOne(g, []string{"mksock", "mksock", "rmsock"}), Path: d + "/0.log"})
 			case 7:
 				h = append(h, step{Op: "dir-to-file", Path: d + "/" + ev.PickOne(g, []string{"c.log", "x.log"})})
 			case 8:
